@@ -40,7 +40,7 @@ COMM = {
 BY_TYPE = {"community": ["CB1", "CB2", "CBR"], "extcommunity_rt": ["CR1", "CR2"], "extcommunity_soo": ["CS1", "CS2"],
            "large_community": ["CL1", "CL2"]}
 PL4, PL6 = ["PL4_A", "PL4_B"], ["PL6_A"]
-ASP, RDF = ["ASP1", "ASP2"], ["RD1", "RD2"]
+ASP, RDF = ["ASP1", "ASP2", "ASP3", "ASP4"], ["RD1", "RD2"]
 EXPECTED = (NotImplementedError, RuntimeError, ValueError)
 
 
@@ -55,9 +55,9 @@ def gen_cond(rnd, tame=False):
             return [f, "has_any" if f in ("community", "extcommunity_rt") else "has", names[:1] if rnd.chance(60) else names]
         return [f, rnd.choice(["has", "has_any"]), names]
     if k == 4:
-        return ["match_v4", rnd.sample(PL4, rnd.randint(1, 2)), rnd.choice([[None, None], [None, None], [24, None], [None, 32], [25, 30]])]
+        return ["match_v4", rnd.sample(PL4, rnd.randint(1, 2)), rnd.choice([[None, None], [None, None], [24, None], [None, 32], [25, 30], [0, None], [None, 0], [0, 0], [0, 32]])]
     if k == 5:
-        return ["match_v6", ["PL6_A"], rnd.choice([[None, None], [64, None], [None, 128]])]
+        return ["match_v6", ["PL6_A"], rnd.choice([[None, None], [64, None], [None, 128], [0, None], [0, 0]])]
     if k == 6:
         return ["as_path_filter", rnd.choice(ASP)]
     if k == 7:
@@ -241,7 +241,8 @@ def entities():
     comms = [CommunityList(n, m, getattr(CommunityType, t), getattr(CommunityLogic, lg), rx) for n, (t, lg, rx, m) in COMM.items()]
     pls = [ip_prefix_list("PL4_A", ["10.0.0.0/8", "192.168.0.0/16"]), ip_prefix_list("PL4_B", ["172.16.0.0/12"], (16, 24)),
            ip_prefix_list("PL6_A", ["2001:db8::/32"])]
-    asp = [AsPathFilter("ASP1", ["65000", ".*"]), AsPathFilter("ASP2", [".*", "65001", "65002"])]
+    asp = [AsPathFilter("ASP1", ["65000", ".*"]), AsPathFilter("ASP2", [".*", "65001", "65002"]),
+           AsPathFilter("ASP3", [".*"]), AsPathFilter("ASP4", [".*", ".*"])]   # (filters that let every path through)
     rdf = [RDFilter("RD1", 1, ["100:1"]), RDFilter("RD2", 2, ["100:2", "100:3"])]
     return comms, pls, asp, rdf
 
